@@ -21,6 +21,14 @@ CHECKS = {
          "reads through the real PolyAFinder, so reachability of bad position pairs is decided by execution.",
          "Trusted: the SAM walker in props/c16.py (cross-checked against pysam), pysam itself. Random long CIGARs mentioned in the property's quantifier are not sampled (technique is exhaustive enumeration only).",
          "DESIGN.md §3 C16"),
+ "C15": ("model_checking",
+         "explicit-state BFS over record streams (history = stream prefix) and deviation-bounded enumeration of object field values, every state executed on the real serialisers/loaders; pipeline reuse runs",
+         "Every write_*/read_* pair on edge alphabets; every ReadAssignment/IsoformMatch/MatchEvent reachable from a default object by <=2 field "
+         "deviations is serialised and read back by the full and the abridged reader (byte alignment asserted with a sentinel); all record streams "
+         "of <=3/4 records over {3 gene infos, 3 assignments} go through the real tmp-file printer and both loaders; multimapper files with "
+         "terminator; runs restarted with --read_assignments are compared file by file with the run that saved them.",
+         "Trusted: field-wise state projections in props/c15.py. Non-ASCII strings and negative/non-representable penalty scores are outside the domain.",
+         "DESIGN.md §3 C15"),
 }
 
 NOT_YET = {}
